@@ -27,7 +27,7 @@ def _load(prop: str):
 
 
 def load_known(prop: str):
-    p = os.path.join(ROOT, "known_findings.json")
+    p = os.environ.get("VERIF_KNOWN_FILE") or os.path.join(ROOT, "known_findings.json")  # (env override: self-test of this mechanism only)
     if not os.path.exists(p):
         return []
     data = json.load(open(p))
